@@ -1,18 +1,28 @@
 """C14 — Options hold what was set, reject invalid values, and stay private to a client.
 
 Proof: coq/C14/Props.v — the model of suds/properties.py (Properties graph with
-Link/Endpoint bookkeeping, provider search, validate -> nvl -> store -> linker,
-TpLinker.updated, Client.clone) refines a map-per-object specification for
-histories of ANY length; invalid assignments have no effect; a client is linked
-to exactly its current transport's options; clones are independent both ways.
+Link/Endpoint bookkeeping incl. teardown and re-linking of released transport
+objects, provider search, validate -> nvl -> store -> linker, TpLinker.updated),
+of Client.clone with Transport.__deepcopy__ and of what a transport hands to
+urllib on a send refines a map-per-object specification for histories of ANY
+length; invalid assignments have no effect; a client is linked to exactly its
+current transport's options, a released transport to nothing, and a released
+transport can be given to any client; clones are independent both ways.
 "Transport options follow the client when the transport is replaced" is false
 of the faithful model (follow_refuted / follow_partial).
 
 Tie to the code: the two option definition lists are regenerated from /repo on
 every run (tools/tables_c14.py); histories of option operations are executed on
-real suds Client / transport objects and every observed result is compared, in
-Coq, with the model (c14_agrees) and with the specification (c14_spec_ok).
+real suds Client / transport objects (stock HttpTransport / HttpAuthenticated
+of both modules, and a transport class derived directly from
+suds.transport.Transport) and every observed result is compared, in Coq, with
+the model (c14_agrees) and with the specification (c14_spec_ok).  What a
+transport USES is observed inside urllib: OpenerDirector.open is intercepted
+and reports the timeout, the ProxyHandler's proxies, the request headers and
+the credentials (password manager of the HTTPBasicAuthHandler / Authorization
+header) of the opener the transport really built, on every send and open.
 """
+import base64
 import itertools
 import re
 
@@ -22,6 +32,7 @@ THEOREMS = [
     "repo_tables_are_the_documented_ones", "options_refine_map", "repo_options_refine_documented_spec",
     "set_then_get", "invalid_has_no_effect", "attr_error_no_effect", "link_invariant",
     "clone_copies", "clone_independent_both_ways", "follow_refuted", "follow_partial",
+    "send_uses_what_was_set", "released_transport_is_detached", "released_transport_can_be_handed_over",
 ]
 
 # operation results (same numbering as code_out in coq/C14/Model.v)
@@ -30,7 +41,14 @@ OOK, OATTR, OEXC, OREC, ONOCLIENT = ("ok",), ("attr",), ("exc",), ("rec",), ("no
 UNKNOWN_NAMES = {90: "bogus", 91: "Timeout", 92: "transports", 93: "time_out"}
 SWEEP_UNKNOWN = 90
 WATCH = [32, 5, 6, 90]    # timeout, faults, transport, an unknown name (pinned numbering)
-N_TRANSPORTS = 4          # transport objects per client: indexes 0..3 (even: HttpAuthenticated, odd: HttpTransport)
+N_TRANSPORTS = 4          # transport objects made for each client: indexes 0..3, class by index (TAG_OF_INDEX)
+TW = 8                    # identity of transport object i made for client a: a * TW + i (Model.v: tnode)
+# 16 suds.transport.https.HttpAuthenticated (what Client.__init__ creates), 15 suds.transport.http.HttpTransport,
+# 17 a class derived directly from suds.transport.Transport (no __deepcopy__ of its own),
+# 18 suds.transport.http.HttpAuthenticated (sends an Authorization header)
+TAG_OF_INDEX = {0: 16, 1: 15, 2: 17, 3: 18}
+TRANSPORT_TAGS = (15, 16, 17, 18)
+TEST_URL = "http://h.invalid/c14"
 
 # names whose values can make an invocation fail before the transport is reached;
 # histories containing a Us operation do not assign them
@@ -44,20 +62,90 @@ class _Sent(Exception):
     pass
 
 
-class _Recorder(object):
-    """urlopener stand-in: records what the transport hands to urllib."""
+# the World whose transports are being exercised (one history at a time)
+_CURRENT = {"world": None}
 
-    def __init__(self, world, transport):
-        self.world = world
-        self.transport = transport
 
-    def open(self, u2request, timeout=None):
-        self.world.last_use = (timeout, self.transport.proxy, dict(u2request.header_items()))
-        raise _Sent()
+def _note_use(rec):
+    w = _CURRENT["world"]
+    if w is not None:
+        w.last_use = rec
+
+
+def _fake_open(self, fullurl, data=None, timeout=None):
+    """Stand-in for urllib.request.OpenerDirector.open: nothing is sent; reports what
+    the opener the transport built would have used."""
+    import urllib.request
+    rec = {"timeout": timeout, "proxies": {}, "headers": {}, "cred": (None, None), "basic": False}
+    try:
+        url = fullurl.full_url if hasattr(fullurl, "full_url") else str(fullurl)
+        if hasattr(fullurl, "header_items"):
+            rec["headers"] = dict(fullurl.header_items())
+        for h in list(self.handlers):
+            if isinstance(h, urllib.request.ProxyHandler):
+                rec["proxies"] = dict(h.proxies)
+            if isinstance(h, urllib.request.AbstractBasicAuthHandler):
+                rec["basic"] = True
+                rec["cred"] = tuple(h.passwd.find_user_password(None, url))
+    except Exception as e:   # noqa -- a changed implementation may hand over anything
+        rec["error"] = repr(e)
+    _note_use(rec)
+    raise _Sent()
+
+
+def install_urllib_intercept():
+    import urllib.request
+    if getattr(urllib.request.OpenerDirector.open, "_c14", False):
+        return
+    _fake_open._c14 = True
+    urllib.request.OpenerDirector.open = _fake_open
+    # build_opener() makes an HTTPSHandler whose default SSL context loads the system's
+    # certificates (30 ms per opener); nothing is ever sent, so a bare context will do
+    try:
+        import http.client
+        import ssl
+        if hasattr(http.client, "_create_https_context"):
+            http.client._create_https_context = lambda *a, **k: ssl.SSLContext(ssl.PROTOCOL_TLS_CLIENT)
+    except Exception:   # noqa
+        pass
+
+
+def make_custom_transport_class():
+    """A transport derived directly from suds.transport.Transport, as a test or an
+    application would write one: no __deepcopy__ of its own (Client.clone() copies it
+    with Transport.__deepcopy__), reads its own options when asked to send."""
+    import suds.transport
+
+    class DirectTransport(suds.transport.Transport):
+        def __init__(self):
+            suds.transport.Transport.__init__(self)
+
+        def _record(self, request):
+            cred = (self.options.username, self.options.password)
+            _note_use({"timeout": getattr(request, "timeout", None) or self.options.timeout,
+                       "proxies": self.options.proxy, "headers": dict(request.headers),
+                       "cred": cred if None not in cred else (None, None), "basic": True})
+            raise _Sent()
+
+        def open(self, request):
+            self._record(request)
+
+        def send(self, request):
+            self._record(request)
+    return DirectTransport
 
 
 def transport_tag(i):
-    return 16 if i % 2 == 0 else 15
+    return TAG_OF_INDEX[i % N_TRANSPORTS]
+
+
+def tval(a, i):
+    """the value naming transport object i made for client a"""
+    return (transport_tag(i), a * TW + i)
+
+
+def tnode_of(v):
+    return (v[1] // TW, v[1] % TW)
 
 
 class Env(object):
@@ -72,6 +160,8 @@ class Env(object):
         import suds.wsse
         import suds.xsd.doctor
         import suds.plugin
+        install_urllib_intercept()
+        self.custom_cls = make_custom_transport_class()
         self.tables = tables_c14.read_tables()
         self.name_of = {v: k for k, v in self.tables["names"].items()}
         self.name_of.update(UNKNOWN_NAMES)
@@ -98,7 +188,7 @@ class Env(object):
             (4, 0): "a", (4, 1): "svc", (4, 2): "http://h.invalid/x", (4, 3): "u", (4, 4): "",
             (5, 0): b"a",
             (6, 0): {}, (6, 1): {"http": "h.invalid:1"}, (6, 2): {"X-a": "1"},
-            (6, 3): {"X-a": "2", "X-b": "3"},
+            (6, 3): {"X-a": "2", "X-b": "3"}, (6, 4): {"https": "g.invalid:2", "http": "g.invalid:3"},
             (7, 0): [], (7, 1): [p1], (7, 2): [p1, p2],
             (8, 0): (), (8, 1): (p1,), (8, 2): ("h", 1),
             (9, 1): stamp(type("Plain", (object,), {})(), (9, 1)),
@@ -118,7 +208,9 @@ class Env(object):
         for k, v in pool.items():
             if k[0] in (6, 7, 8):
                 self.struct[(k[0], self.skey(v))] = k
-        self.universe = sorted(k for k in pool) + [(transport_tag(i), i) for i in range(N_TRANSPORTS)]
+        # the transport objects made for client 0 stand for "a transport" in the universe of
+        # values; the generators substitute the objects of the other clients
+        self.universe = sorted(k for k in pool) + [tval(0, i) for i in range(N_TRANSPORTS)]
         # values a definition accepts, judged with the regenerated tables (statistics and
         # generation only; the verdict is Coq's, on the pinned tables)
         self.valid_for = {}
@@ -153,15 +245,16 @@ class World(object):
         import suds.transport.https
         self.env = env
         self.clients = []
-        self.transports = {}
+        self.transports = {}      # (a, i) -> transport object i made for client a
         self.last_use = None
+        _CURRENT["world"] = self
         store = suds.store.DocumentStore()
         store._c14 = (12, 2)
         store.update({"main.wsdl": env.wsdl})
         kw = {}
         for op in ctor_ops:
             assert op[0] == "St" and op[1] == ("C", 0)
-            kw[env.name_of[op[2]]] = self.value(0, op[3])
+            kw[env.name_of[op[2]]] = self.value(op[3])
         kw["cache"] = None
         kw["documentStore"] = store
         self.ctor_tail = [("St", ("C", 0), env.tables["names"]["cache"], (0, 0), "ctor"),
@@ -189,7 +282,7 @@ class World(object):
             except Exception:
                 first = None
         if first is not None and (0, 0) not in self.transports:
-            self.register(0, 0, first)
+            self.transports[(0, 0)] = first
         self.stamp_defaults(c)
 
     # ---- objects
@@ -202,30 +295,26 @@ class World(object):
         except Exception:
             pass
 
-    def register(self, c, i, t):
-        self.transports[(c, i)] = t
-        try:
-            t.urlopener = _Recorder(self, t)
-        except Exception:
-            pass
+    def transport_class(self, i):
+        import suds.transport.http
+        import suds.transport.https
+        return {16: suds.transport.https.HttpAuthenticated, 15: suds.transport.http.HttpTransport,
+                17: self.env.custom_cls, 18: suds.transport.http.HttpAuthenticated}[transport_tag(i)]
 
-    def transport(self, c, i):
-        t = self.transports.get((c, i))
+    def transport(self, a, i):
+        t = self.transports.get((a, i))
         if t is None:
-            import suds.transport.http
-            import suds.transport.https
-            cls = suds.transport.https.HttpAuthenticated if i % 2 == 0 else suds.transport.http.HttpTransport
-            t = cls()
-            self.register(c, i, t)
+            t = self.transport_class(i)()
+            self.transports[(a, i)] = t
         return t
 
-    def value(self, c, v):
-        if v[0] in (15, 16):
-            return self.transport(c, v[1])
+    def value(self, v):
+        if v[0] in TRANSPORT_TAGS:
+            return self.transport(*tnode_of(v))
         return self.env.pool[v]
 
-    def enc(self, c, x):
-        """canonical (tag, id) of a value read from an option of client c"""
+    def enc(self, x):
+        """canonical (tag, id) of a value read from an option"""
         if x is None:
             return (0, 0)
         if x is True or x is False:
@@ -242,9 +331,9 @@ class World(object):
         if type(x) in (dict, list, tuple):
             tag = {dict: 6, list: 7, tuple: 8}[type(x)]
             return self.env.struct.get((tag, self.env.skey(x)), (99, 3))
-        for (cc, i), t in self.transports.items():
+        for (a, i), t in self.transports.items():
             if t is x:
-                return (transport_tag(i), i) if cc == c else (97, 0)
+                return tval(a, i) if a * TW + i < 1000 else (97, 0)
         m = getattr(x, "_c14", None)
         if isinstance(m, tuple) and len(m) == 2 and isinstance(m[0], int):
             return m
@@ -268,9 +357,10 @@ class World(object):
             return OREC
         except Exception:
             return OEXC
-        return ("val",) + self.enc(node[1], x)
+        return ("val",) + self.enc(x)
 
     def run(self, op):
+        _CURRENT["world"] = self
         kind = op[0]
         if kind == "Cl":
             return self.clone(op[1])
@@ -279,20 +369,26 @@ class World(object):
         node = op[1]
         if not self.exists(node):
             return ONOCLIENT
+        if kind == "Uo":
+            return self.open(node)
         if kind == "Gt":
             return self.read(node, op[2])
         if kind == "Sw":
             return ("w", [code(self.read(node, nm)) for nm in op[2]])
         assert kind == "St"
-        name, v, how = self.env.name_of[op[2]], self.value(node[1], op[3]), op[4]
+        if op[3][0] in TRANSPORT_TAGS and tnode_of(op[3])[0] >= len(self.clients):
+            return ONOCLIENT
+        name, v, how = self.env.name_of[op[2]], self.value(op[3]), op[4]
         try:
             if how == "tctor" and node[0] == "T" and (node[1], node[2]) not in self.transports:
                 # HttpTransport(name=v): the keyword is applied by Properties.update
-                import suds.transport.http
-                import suds.transport.https
-                cls = suds.transport.https.HttpAuthenticated if node[2] % 2 == 0 else \
-                    suds.transport.http.HttpTransport
-                self.register(node[1], node[2], cls(**{name: v}))
+                cls = self.transport_class(node[2])
+                if cls is self.env.custom_cls:
+                    t = cls()
+                    self.transports[(node[1], node[2])] = t
+                    setattr(t.options, name, v)
+                else:
+                    self.transports[(node[1], node[2])] = cls(**{name: v})
             elif how == "set_options" and node[0] == "C":
                 self.clients[node[1]].set_options(**{name: v})
             elif how == "unskin":
@@ -327,16 +423,65 @@ class World(object):
             kt = k.options.transport
         except Exception:
             ot = kt = None
-        if kt is not None and kt is not ot:
-            for (cc, i), t in list(self.transports.items()):
-                if cc == c and t is ot:
-                    self.register(kid, i, kt)
+        if kt is not None and kt is not ot and not any(t is kt for t in self.transports.values()):
+            for (a, i), t in list(self.transports.items()):
+                if t is ot:
+                    self.transports[(kid, i)] = kt
         return OOK
+
+    # ---- what a transport uses
+    def _forget_credentials(self, t):
+        """The password manager of https.HttpAuthenticated accumulates what addcredentials()
+        registers; empty it (in place) so that each send shows what THAT send registered."""
+        try:
+            pm = getattr(t, "pm", None)
+            if pm is not None and isinstance(getattr(pm, "passwd", None), dict):
+                pm.passwd.clear()
+        except Exception:
+            pass
+
+    def _used(self, tag_hint, with_headers):
+        rec = self.last_use
+        if rec is None or "error" in rec:
+            return OEXC
+        hdrs = dict(rec["headers"])
+        cred = rec["cred"]
+        low = {}
+        for k, v in hdrs.items():
+            if k.lower() == "authorization":
+                cred = self._basic(v)
+            elif k.lower() not in ("content-type", "soapaction"):
+                low[k.lower()] = v
+        extra = low
+        for k, d in self.env.pool.items():
+            if k[0] == 6 and dict((x.lower(), y) for x, y in d.items()) == low:
+                extra = d
+        if not (isinstance(cred, tuple) and len(cred) == 2):
+            cred = ("?", "?")
+        out = [code(("val",) + self.enc(rec["timeout"])), code(("val",) + self.enc(rec["proxies"])),
+               code(("val",) + self.enc(cred[0])), code(("val",) + self.enc(cred[1]))]
+        if with_headers:
+            out = [code(("val",) + self.enc(extra))] + out
+        return ("w", out)
+
+    def _basic(self, value):
+        """(user, password) of an Authorization: Basic header, matched against the pool"""
+        try:
+            raw = base64.b64decode(value.split(None, 1)[1]).decode()
+        except Exception:
+            return ("?", "?")
+        strs = [v for k, v in self.env.pool.items() if k[0] == 4]
+        hits = [(u, p) for u in strs for p in strs if u + ":" + p == raw]
+        return hits[0] if len(hits) == 1 else ("?", "?")
 
     def use(self, c):
         if c >= len(self.clients):
             return ONOCLIENT
         self.last_use = None
+        try:
+            self._forget_credentials(self.clients[c].options.transport)
+        except Exception:
+            pass
         try:
             self.clients[c].service.f("x")
         except _Sent:
@@ -347,17 +492,24 @@ class World(object):
             return OREC
         except Exception:
             return OEXC
-        if self.last_use is None:
+        return self._used(None, True)
+
+    def open(self, node):
+        import suds.transport
+        self.last_use = None
+        try:
+            t = self.transport(node[1], node[2])
+            self._forget_credentials(t)
+            t.open(suds.transport.Request(TEST_URL))
+        except _Sent:
+            pass
+        except AttributeError:
+            return OATTR
+        except RecursionError:
+            return OREC
+        except Exception:
             return OEXC
-        tm, proxy, hdrs = self.last_use
-        # urllib capitalises header names; match the pooled dict case-insensitively
-        low = dict((k.lower(), v) for k, v in hdrs.items() if k.lower() not in ("content-type", "soapaction"))
-        extra = low
-        for k, d in self.env.pool.items():
-            if k[0] == 6 and dict((x.lower(), y) for x, y in d.items()) == low:
-                extra = d
-        return ("w", [code(("val",) + self.enc(c, tm)), code(("val",) + self.enc(c, proxy)),
-                      code(("val",) + self.enc(c, extra))])
+        return self._used(None, False)
 
 
 def code(o):
@@ -386,6 +538,8 @@ def c_op(op, full):
                              "[" + ";".join(str(x) for x in op[2]) + "]")
     if k == "Us":
         return "Us %d" % op[1]
+    if k == "Uo":
+        return "Uo %s %d" % (c_node(op[1]), op[2])
     return "Cl %d" % op[1]
 
 
@@ -421,8 +575,10 @@ def py_op(op, env):
         return "client%d" % n[1] if n[0] == "C" else "transport%d_%d" % (n[1], n[2])
 
     def val(v):
-        if v[0] in (15, 16):
-            return "<%s #%d>" % ("HttpAuthenticated" if v[0] == 16 else "HttpTransport", v[1])
+        if v[0] in TRANSPORT_TAGS:
+            return "<transport%d_%d: %s>" % (tnode_of(v) + ({16: "https.HttpAuthenticated", 15: "http.HttpTransport",
+                                                             17: "DirectTransport(suds.transport.Transport)",
+                                                             18: "http.HttpAuthenticated"}[v[0]],))
         x = env.pool.get(v)
         return repr(x) if v[0] in (0, 1, 2, 3, 4, 5, 6) else "<%s>" % type(x).__name__
     if k == "St":
@@ -439,34 +595,102 @@ def py_op(op, env):
     if k == "Sw":
         return "read %d options of %s" % (len(op[2]), who(op[1]))
     if k == "Us":
-        return "client%d.service.f('x')  # what the transport is handed" % op[1]
+        return "client%d.service.f('x')  # what its transport uses: [headers, timeout, proxy, user, password]" % op[1]
+    if k == "Uo":
+        return "%s.open(Request(url))  # what it uses: [timeout, proxy, user, password]" % who(op[1])
     return "client%d.clone()" % op[1]
 
 
-def pick_value(rng, env, name):
+class Holders(object):
+    """Which client holds which transport object, as far as the GENERATOR can tell
+    from the operations alone (validity by the regenerated tables): used to keep
+    histories inside the property's alphabet -- a transport object another client
+    currently holds is never given to a client (Coq re-checks this: c14_inscope)."""
+
+    def __init__(self, env):
+        self.env = env
+        self.tr = env.tables["names"]["transport"]
+        self.held = {0: (0, 0)}
+        self.n = 1
+
+    def copy(self):
+        h = Holders(self.env)
+        h.held = dict(self.held)
+        h.n = self.n
+        return h
+
+    def holder(self, t):
+        for c, x in self.held.items():
+            if x == t:
+                return c
+        return None
+
+    def target(self, node):
+        return node[1] if node[0] == "C" else self.holder((node[1], node[2]))
+
+    def shares(self, op):
+        if op[0] != "St" or op[2] != self.tr or op[3][0] not in TRANSPORT_TAGS:
+            return False
+        if not self.env.accepts(self.tr, op[3]):
+            return False
+        c = self.target(op[1])
+        h = self.holder(tnode_of(op[3]))
+        return c is not None and h is not None and h != c
+
+    def apply(self, op):
+        if op[0] == "Cl":
+            if op[1] < self.n:
+                t = self.held.get(op[1])
+                self.held[self.n] = (self.n, t[1]) if t else None
+                self.n += 1
+            return
+        if op[0] != "St" or op[2] != self.tr:
+            return
+        if op[1][1] >= self.n:
+            return
+        c = self.target(op[1])
+        v = op[3]
+        if c is None or not self.env.accepts(self.tr, v):
+            return
+        if v[0] in TRANSPORT_TAGS:
+            if tnode_of(v)[0] < self.n:
+                self.held[c] = tnode_of(v)
+        else:
+            self.held[c] = None
+
+
+def pick_value(rng, env, name, hold=None, node=None):
     """None / a value the definition accepts / any value of the universe.  A transport
     object is only ever stored in the `transport` option (stored elsewhere, e.g. in
-    soapheaders which accepts anything, a clone would hold an anonymous deep copy)."""
+    soapheaders which accepts anything, a clone would hold an anonymous deep copy).
+    Transport objects are those made for ANY existing client: released ones are
+    re-used and handed to other clients; one that another client holds is not."""
     tr = env.tables["names"]["transport"]
-    while True:
+    for _ in range(200):
         r = rng.random()
         if r < 0.15:
             return (0, 0)
         good = env.valid_for.get(name)
         v = rng.choice(good) if good and r < 0.65 else rng.choice(env.universe)
-        if v[0] in (15, 16) and name != tr and env.accepts(name, v):
-            continue
+        if v[0] in TRANSPORT_TAGS:
+            if name != tr and env.accepts(name, v):
+                continue
+            if hold is not None:
+                v = tval(rng.randrange(hold.n), v[1] % TW)
+                if hold.shares(("St", node, name, v, "attr")):
+                    continue
         return v
+    return (0, 0)
 
 
 def pick_name(rng, env, facade, safe):
     r = rng.random()
     if r < 0.07:
         return rng.choice(sorted(UNKNOWN_NAMES))
-    if r < 0.20:
+    if r < 0.22:
         return env.tables["names"]["transport"]
     if facade == "C":
-        pool = env.tnames if rng.random() < 0.45 else env.cnames
+        pool = env.tnames if rng.random() < 0.5 else env.cnames
     else:
         pool = env.tnames if rng.random() < 0.8 else env.cnames
     names = [n for n in pool if not (safe and env.name_of[n] in USE_UNSAFE)]
@@ -483,54 +707,76 @@ def all_nodes(nclients):
 
 
 def random_history(rng, env, maxlen):
-    """(ctor operations, operations); `length` counts assignments and clones."""
-    safe = rng.random() < 0.5          # history may contain Us operations
+    """(ctor operations, operations); `length` counts assignments, clones and sends."""
+    safe = rng.random() < 0.6          # history may contain sends through a client
     full = env.all_names
     ops, ctor = [], []
-    nclients = 1
+    hold = Holders(env)
     if rng.random() < 0.3:
         names = [n for n in env.cnames + env.tnames
                  if env.name_of[n] not in CTOR_UNSAFE and not (safe and env.name_of[n] in USE_UNSAFE)]
         for n in rng.sample(names, rng.randrange(1, 5)):
-            good = [v for v in env.valid_for[n] if not (v[0] in (15, 16) and
+            good = [v for v in env.valid_for[n] if not (v[0] in TRANSPORT_TAGS and
                                                           (v[1] == 0 or env.name_of[n] != "transport"))]
             v = rng.choice(good + ([] if env.name_of[n] == "transport" else [(0, 0)])) if good else (0, 0)
-            ctor.append(("St", ("C", 0), n, v, "ctor"))
+            op = ("St", ("C", 0), n, v, "ctor")
+            ctor.append(op)
+            hold.apply(op)
     length = rng.choice([1, 2, 3, 5, 8, 12, 16, 20, 25, maxlen, maxlen])
     for step in range(length):
         r = rng.random()
+        nclients = hold.n
         if r < 0.07 and nclients < 3:
             c = rng.randrange(nclients)
             ops.append(("Cl", c))
+            hold.apply(("Cl", c))
             k = nclients
-            nclients += 1
             for n in [("C", k), ("C", c)] + [("T", k, i) for i in range(N_TRANSPORTS)]:
                 ops.append(("Sw", n, full))
             continue
-        if r < 0.13 and safe:
+        if r < 0.17 and safe:
             ops.append(("Us", rng.randrange(nclients)))
             continue
+        if r < 0.24:
+            i = rng.randrange(N_TRANSPORTS)
+            ops.append(("Uo", ("T", rng.randrange(nclients), i), transport_tag(i)))
+            continue
         c = 0 if (nclients == 1 or rng.random() < 0.5) else rng.randrange(1, nclients)
-        node = ("C", c) if rng.random() < 0.68 else ("T", c, rng.randrange(N_TRANSPORTS))
+        node = ("C", c) if rng.random() < 0.68 else ("T", rng.randrange(nclients), rng.randrange(N_TRANSPORTS))
         name = pick_name(rng, env, node[0], safe)
-        v = pick_value(rng, env, name)
+        v = pick_value(rng, env, name, hold, node)
         how = rng.choice(["set_options", "attr", "attr", "unskin"]) if node[0] == "C" else \
             rng.choice(["attr", "attr", "unskin", "tctor"])
-        ops.append(("St", node, name, v, how))
+        op = ("St", node, name, v, how)
+        ops.append(op)
+        hold.apply(op)
         # observe the assigned name everywhere it can be seen, and a little more
         for cc in range(nclients):
             ops.append(("Gt", ("C", cc), name))
-        for i in range(N_TRANSPORTS):
-            ops.append(("Gt", ("T", c, i), name))
+        for cc in range(nclients):
+            for i in range(N_TRANSPORTS):
+                ops.append(("Gt", ("T", cc, i), name))
         if rng.random() < 0.3:
             ops.append(("Sw", node, full))
         if rng.random() < 0.3:
             ops.append(("Gt", rng.choice(all_nodes(nclients)), rng.choice(full)))
+        if name in env.tnames and rng.random() < 0.5:
+            # what the transports use right after a transport option changed
+            if safe:
+                ops.append(("Us", rng.randrange(nclients)))
+            for cc in range(nclients):
+                t = hold.held.get(cc)
+                if t is not None:
+                    ops.append(("Uo", ("T",) + t, transport_tag(t[1])))
         if step % 8 == 7:
             for n in all_nodes(nclients):
                 ops.append(("Sw", n, full))
+    nclients = hold.n
     for n in all_nodes(nclients):
         ops.append(("Sw", n, full))
+    for n in all_nodes(nclients):
+        if n[0] == "T":
+            ops.append(("Uo", n, transport_tag(n[2])))
     if safe:
         for c in range(nclients):
             ops.append(("Us", c))
@@ -545,8 +791,8 @@ def alphabets(env):
         ("St", ("C", 0), T, (4, 0), "attr"),             # wrong type
         ("St", ("C", 0), T, (0, 0), "set_options"),      # None
         ("St", ("C", 0), B, (2, 1), "set_options"),      # unknown name
-        ("St", ("C", 0), TR, (15, 1), "set_options"),    # replace the transport
-        ("St", ("C", 0), TR, (16, 0), "attr"),           # ... and back to the first one
+        ("St", ("C", 0), TR, tval(0, 1), "set_options"), # replace the transport
+        ("St", ("C", 0), TR, tval(0, 0), "attr"),        # ... and back to the first one
         ("St", ("T", 0, 1), T, (2, 7), "attr"),          # set on a transport's own options
         ("St", ("T", 0, 0), T, (3, 1), "attr"),
         ("St", ("C", 0), F, (1, 0), "attr"),             # set valid (client domain)
@@ -558,12 +804,52 @@ def alphabets(env):
     extra = [
         ("St", ("C", 0), TR, (0, 0), "set_options"),     # no transport at all
         ("St", ("T", 0, 1), F, (1, 0), "attr"),          # client option through the transport's options
-        ("St", ("C", 1), TR, (15, 1), "attr"),           # replace the clone's transport
+        ("St", ("C", 1), TR, tval(1, 1), "attr"),        # replace the clone's transport
         ("St", ("C", 1), F, (1, 0), "attr"),
         ("St", ("T", 1, 0), T, (2, 1), "attr"),
         ("St", ("C", 0), TR, (9, 1), "attr"),            # wrong type for transport
     ]
     return small, med, extra
+
+
+def use_alphabet(env, base):
+    """Sends interleaved with changes of the options a transport uses, on a client whose
+    transport is object `base` of client 0 (one alphabet per transport class)."""
+    nm = env.tables["names"]
+    P, T, H, U, W, TR = nm["proxy"], nm["timeout"], nm["headers"], nm["username"], nm["password"], nm["transport"]
+    prefix = [] if base == 0 else [("St", ("C", 0), TR, tval(0, base), "set_options")]
+    alpha = [
+        ("Us", 0),                                        # send
+        ("St", ("C", 0), P, (6, 1), "set_options"),       # proxy through the client
+        ("St", ("C", 0), P, (0, 0), "attr"),              # ... back to the default
+        ("St", ("T", 0, base), T, (2, 7), "attr"),        # timeout on the transport's own options
+        ("Cl", 0),                                        # clone
+        ("St", ("C", 1), P, (6, 4), "attr"),              # proxy on the clone
+        ("Us", 1),                                        # send through the clone
+        ("St", ("T", 1, base), H, (6, 2), "attr"),        # headers on the clone's transport
+        ("St", ("C", 0), U, (4, 3), "set_options"),       # credentials
+        ("St", ("C", 0), W, (4, 0), "attr"),
+    ]
+    return prefix, alpha
+
+
+def handover_alphabet(env):
+    """Replace / release / re-use of transport objects, also across clients."""
+    nm = env.tables["names"]
+    T, TR = nm["timeout"], nm["transport"]
+    return [
+        ("St", ("C", 0), TR, tval(0, 1), "attr"),         # A -> B
+        ("St", ("C", 0), TR, tval(0, 0), "set_options"),  # ... -> A again
+        ("St", ("C", 0), TR, tval(0, 2), "attr"),         # a transport derived directly from Transport
+        ("St", ("C", 0), TR, (0, 0), "attr"),             # release without replacement
+        ("Cl", 0),
+        ("St", ("C", 1), TR, tval(0, 0), "attr"),         # a transport client 0 made, to the clone
+        ("St", ("C", 1), TR, tval(0, 2), "set_options"),
+        ("St", ("C", 0), TR, tval(1, 0), "attr"),         # ... and the clone's to client 0
+        ("St", ("C", 0), T, (2, 5), "set_options"),
+        ("St", ("T", 0, 0), T, (2, 7), "attr"),
+        ("St", ("C", 1), T, (2, 120), "attr"),
+    ]
 
 
 def exhaustive_histories(env, tier):
@@ -572,25 +858,41 @@ def exhaustive_histories(env, tier):
     watch = WATCH
     assert WATCH == [nm["timeout"], nm["faults"], nm["transport"], 90]
     nodes = [("C", 0), ("T", 0, 0), ("T", 0, 1), ("C", 1), ("T", 1, 0), ("T", 1, 1)]
+    nodes2 = [("C", 0), ("C", 1), ("T", 0, 0), ("T", 0, 1), ("T", 0, 2), ("T", 1, 0), ("T", 1, 2)]
+    uwatch = [nm["proxy"], nm["timeout"], nm["headers"], nm["username"], nm["transport"]]
 
-    def expand(seq):
+    def expand(seq, nodes=nodes, watch=watch, opens=()):
         ops = []
         for o in seq:
             ops.append(o)
+            if o[0] == "Us":
+                continue
             for n in nodes:
                 ops.append(("Sw", n, watch))
+        for n in opens:
+            ops.append(("Uo", n, transport_tag(n[2])))
         ops.append(("Us", 0))
         ops.append(("Us", 1))
         return ops
     seen = set()
     out = []
 
-    def add(alpha, n):
+    def add(alpha, n, prefix=(), **kw):
         for seq in itertools.product(range(len(alpha)), repeat=n):
-            s = tuple(alpha[i] for i in seq)
-            if s not in seen:
-                seen.add(s)
-                out.append(expand(s))
+            s = tuple(prefix) + tuple(alpha[i] for i in seq)
+            if s in seen:
+                continue
+            seen.add(s)
+            h = Holders(env)
+            ok = True
+            for o in s:
+                if h.shares(o):
+                    ok = False
+                    break
+                h.apply(o)
+            if ok:
+                out.append(expand(s, **kw))
+    hand = handover_alphabet(env)
     if tier == "thorough":
         for n in range(1, 5):
             add(med, n)
@@ -598,7 +900,16 @@ def exhaustive_histories(env, tier):
             add(small, n)
         for n in range(1, 4):
             add(med + extra, n)
-        scope = "every history of length <=4 over 12 operations, <=6 over 6 operations, <=3 over 18 operations"
+        for base in range(N_TRANSPORTS):
+            prefix, alpha = use_alphabet(env, base)
+            opens = [("T", 0, base), ("T", 1, base)]
+            for n in range(1, 5 if base == 0 else 4):
+                add(alpha, n, prefix, nodes=[("C", 0), ("C", 1)] + opens, watch=uwatch, opens=opens)
+        for n in range(1, 5):
+            add(hand, n, nodes=nodes2, opens=[("T", 0, 0), ("T", 0, 2)])
+        scope = ("every history of length <=4 over 12 operations, <=6 over 6 operations, <=3 over 18 operations; "
+                 "<=4 (<=3) over 10 send/option operations on the default (each other) transport class; <=4 over 11 "
+                 "replace/release/hand-over operations")
     else:
         for n in range(1, 4):
             add(med, n)
@@ -606,7 +917,16 @@ def exhaustive_histories(env, tier):
             add(small, n)
         for n in range(1, 3):
             add(med + extra, n)
-        scope = "every history of length <=3 over 12 operations, <=4 over 6 operations, <=2 over 18 operations"
+        for base in range(N_TRANSPORTS):
+            prefix, alpha = use_alphabet(env, base)
+            opens = [("T", 0, base), ("T", 1, base)]
+            for n in range(1, 4 if base == 0 else 3):
+                add(alpha, n, prefix, nodes=[("C", 0), ("C", 1)] + opens, watch=uwatch, opens=opens)
+        for n in range(1, 4):
+            add(hand, n, nodes=nodes2, opens=[("T", 0, 0), ("T", 0, 2)])
+        scope = ("every history of length <=3 over 12 operations, <=4 over 6 operations, <=2 over 18 operations; "
+                 "<=3 (<=2) over 10 send/option operations on the default (each other) transport class; <=3 over 11 "
+                 "replace/release/hand-over operations")
     return out, scope
 
 
@@ -619,7 +939,7 @@ def batch_histories(rng, env, n):
         names = rng.sample(cn, rng.randrange(1, 4))
         batch = []
         for x in names:
-            batch.append((x, rng.choice([v for v in env.valid_for[x] if v[0] not in (15, 16) or
+            batch.append((x, rng.choice([v for v in env.valid_for[x] if v[0] not in TRANSPORT_TAGS or
                                          env.name_of[x] == "transport"] + [(0, 0)])))
         last = rng.choice(env.cnames + env.tnames + sorted(UNKNOWN_NAMES))
         if last not in names:
@@ -633,11 +953,24 @@ def batch_histories(rng, env, n):
 # ---------------------------------------------------------------------------
 
 def classify_ops(env, ops, ck):
+    hold = Holders(env)
+    released = set()
+    sends = 0
+    changed_since_send = False
     for op in ops:
         if op[0] == "Cl":
             ck.count("clone")
+            t = hold.held.get(op[1])
+            if t is not None and transport_tag(t[1]) == 17:
+                ck.count("clone-of-client-with-direct-Transport-subclass")
         elif op[0] == "Us":
-            ck.count("use")
+            ck.count("send")
+            sends += 1
+            if sends > 1 and changed_since_send:
+                ck.count("send-after-option-change-after-earlier-send")
+            changed_since_send = False
+        elif op[0] == "Uo":
+            ck.count("transport-open")
         elif op[0] == "St":
             node, name, v = op[1], op[2], op[3]
             if op[4] == "ctor":
@@ -646,6 +979,8 @@ def classify_ops(env, ops, ck):
                 ck.count("set-on-clone")
             if node[0] == "T":
                 ck.count("set-on-transport")
+            if name in env.tnames:
+                changed_since_send = True
             if name not in env.defs:
                 ck.count("set-unknown-name")
             elif v[0] == 0:
@@ -654,8 +989,25 @@ def classify_ops(env, ops, ck):
                 ck.count("set-wrong-type")
             elif env.name_of[name] == "transport":
                 ck.count("replace-transport")
+                changed_since_send = True
+                c = hold.target(node)
+                if c is not None and v[0] in TRANSPORT_TAGS:
+                    t = tnode_of(v)
+                    if t in released:
+                        ck.count("re-use-of-released-transport")
+                        if t[0] != c:
+                            ck.count("released-transport-handed-to-another-client")
+                    elif t[0] != c:
+                        ck.count("transport-made-for-another-client")
+                    if v[0] == 17:
+                        ck.count("transport-derived-directly-from-Transport")
             else:
                 ck.count("set-valid")
+        before = dict(hold.held)
+        hold.apply(op)
+        for c, t in before.items():
+            if t is not None and hold.held.get(c) != t:
+                released.add(t)
 
 
 def execute(env, ctor, ops):
@@ -691,8 +1043,12 @@ def finding_class(env, trace, idx, expected=None):
         if o == OATTR:
             return "C14:valid-value-rejected", "assigning a valid value raises AttributeError"
         return "C14:assignment-raises-%s" % o[0], "an assignment raises an exception other than AttributeError"
-    if op[0] == "Us":
-        return "C14:transport-uses-other-value", "the transport is handed values other than the options assigned"
+    if op[0] in ("Us", "Uo"):
+        if cause is not None and cause[0] == "Cl":
+            return "C14:clone-transport-uses-other-value", \
+                "after clone() a transport uses values other than the options assigned to it"
+        return "C14:transport-uses-other-value", \
+            "a transport uses (hands to urllib) values other than the options assigned to it"
     # a read: which option diverges
     dname = op[2] if op[0] == "Gt" else None
     if op[0] == "Sw" and expected:
@@ -703,6 +1059,11 @@ def finding_class(env, trace, idx, expected=None):
                 dname = nm
                 break
     label = " (option %s)" % env.name_of.get(dname, dname) if dname is not None else ""
+    if op[1][0] == "T" and dname in env.cnames and cause is not None and cause[0] == "St" \
+            and cause[2] == env.tables["names"]["transport"]:
+        return "C14:transport-link-bookkeeping", \
+            "after the client's transport option was assigned, a transport object's options are linked " \
+            "to the wrong client options (released transport still linked / new one not linked)" + label
     if cause is not None and cause[0] == "Cl":
         return "C14:clone-values", "a clone does not start with the values of its original" + label
     # the last assignment to the diverging option
@@ -748,14 +1109,20 @@ def run(ck):
         "tools/tables_c14.py: the two definition lists (names, classes, defaults, linker) and the "
         "isinstance table regenerated from suds.options.Options() / suds.transport.options.Options()",
         "correspondence harness harness/c14.py (history generators, canonical value encoding by "
-        "type+equality, markers on opaque objects, urlopener stand-in recording what a send is handed)",
+        "type+equality, markers on opaque objects; urllib.request.OpenerDirector.open replaced by a recorder "
+        "that reads timeout, ProxyHandler.proxies, request headers and the HTTPBasicAuthHandler's password "
+        "manager of the opener the transport built; the password manager is emptied before each send)",
         "modelled, not verified: Python attribute protocol (__getattr__/__setattr__), list.remove/in "
         "with Endpoint.__eq__, copy.deepcopy",
     ]
     ck.notes = [
-        "a transport object belongs to one client: sharing one transport object between two clients "
-        "(Link.validate raises Exception('Duplicate domains')) is outside the operation alphabet",
-        "clone is exercised with suds' own HttpTransport/HttpAuthenticated (they define __deepcopy__)",
+        "one transport object serves one client at a time: giving a client a transport object ANOTHER client "
+        "currently holds (Link.validate raises Exception('Duplicate domains')) is outside the operation "
+        "alphabet (c14_inscope / noshare); released transport objects are re-used and handed to other clients",
+        "clone is exercised with suds' own HttpTransport/HttpAuthenticated (HttpTransport.__deepcopy__) and "
+        "with a class derived directly from suds.transport.Transport (Transport.__deepcopy__)",
+        "credentials: what addcredentials() registers on THIS send; https.HttpAuthenticated keeps earlier "
+        "credentials in its password manager after username/password are reset to None (not judged)",
         "option values are compared by type and equality, never by identity; in-place mutation of a "
         "dict/list value shared by a clone and its original is not an assignment and is not checked",
     ]
@@ -790,23 +1157,26 @@ def run(ck):
             continue
         traces.append((kind, trace))
         cases.append(c_case(trace, full))
-        muts = tuple(op for op, _ in trace if op[0] in ("St", "Cl", "Us"))
+        muts = tuple(op for op, _ in trace if op[0] in ("St", "Cl", "Us", "Uo"))
         ck.seen((kind, muts), nontrivial=any(o == OOK and op[0] == "St" and op[4] != "ctor" for op, o in trace))
         ck.count("history-" + kind)
         classify_ops(env, [op for op, _ in trace], ck)
     ck.traces = len(traces)
     for kind, trace in [traces[i] for i in (5, len(ex) + 3, len(traces) - 1) if 0 <= i < len(traces)]:
         ck.sample({"history": [py_op(op, env) for op, _ in trace if op[0] not in ("Gt", "Sw")][:12],
-                   "observations": sum(1 for op, _ in trace if op[0] in ("Gt", "Sw", "Us")),
+                   "observations": sum(1 for op, _ in trace if op[0] in ("Gt", "Sw", "Us", "Uo")),
                    "kind": kind})
-    preds = ["c14_agrees", "c14_spec_ok", "c14_spec_nofollow_ok"]
+    preds = ["c14_agrees", "c14_spec_ok", "c14_spec_nofollow_ok", "c14_inscope"]
     res = ck.run_cases("hist", pre, "hcase", cases, preds, shard=150)
+    # histories that hand a client a transport object another client holds are not judged
+    # against the specification (the generators avoid them; expected: none)
+    ck.extra["histories_outside_the_alphabet_(shared_transport)"] = len(res["c14_inscope"])
     bad_model = set(res["c14_agrees"])
     bad_spec = set(res["c14_spec_ok"])
     bad_nf = set(res["c14_spec_nofollow_ok"])
 
     def mutating(trace):
-        return [op for op, _ in trace if op[0] in ("St", "Cl", "Us")]
+        return [op for op, _ in trace if op[0] in ("St", "Cl", "Us", "Uo")]
 
     def payload(i):
         kind, trace = traces[i]
@@ -815,8 +1185,12 @@ def run(ck):
                 "trace": [[list(map(lambda x: list(x) if isinstance(x, tuple) else x, op)), list(o)]
                           for op, o in trace],
                 "how": "operations are executed in order on a fresh suds.client.Client; "
-                       "transportC_I is the I-th transport object of client C (I even: HttpAuthenticated(), "
-                       "odd: HttpTransport()); transport0_0 is the one the constructor created"}
+                       "transportC_I is the I-th transport object made for client C (I=0: "
+                       "suds.transport.https.HttpAuthenticated(), 1: suds.transport.http.HttpTransport(), 2: an "
+                       "instance of a class derived directly from suds.transport.Transport, 3: "
+                       "suds.transport.http.HttpAuthenticated()); transport0_0 is the one the constructor created, "
+                       "transportK_I of a clone K the copy clone() made of the original's transportC_I; what a "
+                       "transport uses is read inside urllib.request.OpenerDirector.open"}
 
     # (1) real deviations from the property without the follow clause
     for i in sorted(bad_nf, key=lambda i: len(traces[i][1]))[:6]:
@@ -850,14 +1224,19 @@ def run(ck):
     # (3) model and implementation differ although the specification is met
     only_model = sorted(bad_model - bad_nf)
     ck.rule = ("histories of option operations on real suds objects: %s (each step followed by reads of the "
-               "watched options through both clients and four transports, and a recorded send); %d random "
-               "histories of up to 30 assignments/clones over every option of both domains, 4 transport objects "
-               "per client, up to 3 clients, values of 17 classes incl. None, wrong types and unknown names, "
-               "through set_options / attribute assignment / constructor arguments / a transport's own options, "
-               "each assignment followed by reads of that option through every client and transport and periodic "
-               "reads of all 28 names through all objects; plus multi-keyword set_options calls. distinct = "
-               "distinct sequence of assignments/clones/sends; non-trivial = at least one accepted assignment "
-               "after construction" % (scope, nrand))
+               "watched options through both clients and their transports; sends are operations of the "
+               "alphabets and every history ends with open() on the transports and a send through both "
+               "clients, observed inside urllib); %d random histories of up to 30 assignments/clones/sends over "
+               "every option of both domains, 4 transport objects per client (https.HttpAuthenticated, "
+               "http.HttpTransport, a class derived directly from suds.transport.Transport, "
+               "http.HttpAuthenticated), up to 3 clients, released transport objects re-used and handed to "
+               "other clients, values of 19 classes incl. None, wrong types and unknown names, through "
+               "set_options / attribute assignment / constructor arguments / a transport's own options, each "
+               "assignment followed by reads of that option through every client and transport, sends/opens "
+               "after changes of transport options and periodic reads of all 28 names through all objects; "
+               "plus multi-keyword set_options calls. distinct = distinct sequence of "
+               "assignments/clones/sends/opens; non-trivial = at least one accepted assignment after "
+               "construction" % (scope, nrand))
     ck.exhaustive = False
     if not proof_ok:
         ck.unproved("proof obligation of C14 no longer checks: " + ck.proof_log[-1500:],
@@ -882,7 +1261,7 @@ def run_batch(env, batch):
     trace = [(op, OOK) for op in w.ctor_tail]
     kw = {}
     for name, v in batch:
-        kw[env.name_of[name]] = w.value(0, v)
+        kw[env.name_of[name]] = w.value(v)
     try:
         w.clients[0].set_options(**kw)
         res = OOK
